@@ -17,14 +17,14 @@ RULE = ("Hypothesis byte-backed generator: tables of 1-8 commands from shared st
         "a valid command as tail, ambiguous abbreviations followed by '=', implicit-write, over-long, blank), each terminated by LF or CRLF with stray CRs at "
         "generated positions; handler scripts and variable-callback counters restart at every line so handlers are pure functions of (command, kind, invocation "
         "index within the line). Oracle: the sequence run's output for line i equals the output of line i fed alone to a fresh parser initialised with the variable "
-        "bytes the sequence run had when line i started; every LF of line i's response is preceded by CR iff line i contains a CR after its first non-CR byte. "
+        "bytes the sequence run had when line i started, and so do the handler / variable callbacks with all their arguments and the variable bytes afterwards (a quarter of the cases contain a command whose first variable is read-only with a write callback); every LF of line i's response is preceded by CR iff line i contains a CR after its first non-CR byte. "
         "Non-trivial = at least 2 non-blank lines of which some neighbouring pair differs in CR usage, or one is malformed / implicit-write / over-long; "
         "distinct by case hash.")
 ASSUMPTIONS = ["names, descriptions, tags and string values contain no raw CR/LF, so every LF in the output is a library-emitted newline",
                "HOLD is released on stall with one status per case; events only when triggered by handler scripts (then compared per producer: command units byte-exact, event payloads in order; cases in which a trigger met a full ring are skipped and counted)",
                "handlers are pure functions of (command, kind, invocation index within the line): the world restarts scripts at every consumed LF"]
 TECHNIQUE = "Hypothesis property-based testing; oracle = metamorphic concatenation law on the real library (sequence run vs single-line runs from the same variable state) + model-free newline rule"
-LEVEL_TEXT = ("Metamorphic testing of the real code: no reference model, the sequence run is compared with single-line runs; state leaking from one line into "
+LEVEL_TEXT = ("Metamorphic testing of the real code: no reference model, the sequence run is compared with single-line runs (answers, callbacks with arguments, variable bytes); state leaking from one line into "
               "the next (flags, counters, match bits, newline mode) shows up as a difference.")
 LEVEL_NOTE = "Trusted: world harness (line attribution by consumed LFs, variable dumps at LFs, script restart per line), Hypothesis."
 DESIGN_REF = "DESIGN.md section 5 C20"
